@@ -106,6 +106,19 @@ CHECKS = {
         design_ref="DESIGN.md section 4, C05",
         note="Trusted base: CrossHair 0.0.110, z3 5.1, the plugin's struct model (fresh bytes + one linear equality per integer), the abstract checksum and gzip stubs (real zlib/gzip in every replay), the reference codec vlib/ref/kafka_ref.py. Snappy is absent from the image and outside the claim.",
     ),
+    "C04": dict(
+        category="other", engine="chplug",
+        technique="symbolic execution of the real request encoders with CrossHair/z3 against an independent reference parser (all integer fields and content bytes symbolic, incl. out-of-range); version selection by symrun over all advertised tables in the bound",
+        text="Bounded SMT verification of the real request encoders: for every supported API/version a family of shapes is enumerated; within a "
+             "shape every integer field is a z3 integer over a superset of its wire range (out of range must raise struct.error, never wrap) and "
+             "client id, keys, values, metadata are symbolic bytes. The emitted bytes are parsed by an independent reference parser that selects "
+             "the layout from the header's api key/version and must consume the body completely; every parsed field must equal the supplied one "
+             "(order of topics/partitions/messages, null vs empty, checksum range, codec attributes) on all paths ('Confirmed over all paths' + "
+             "reachability twin). Version selection (ApiVersions discovery incl. error and 3 failed attempts, per-key lookup in permuted tables, "
+             "encoder/decoder pairing for produce and fetch) is explored exhaustively with symrun on the real KafkaClient methods.",
+        design_ref="DESIGN.md section 4, C04",
+        note="Trusted base: CrossHair 0.0.110, z3 5.1, plugin struct model/abstract checksum/gzip stub (real ones in every replay), reference parser vlib/ref/kafka_ref.py, symrun for version selection. Topic names, partition ids and group texts come from finite pools.",
+    ),
 }
 
 NOT_YET = "check not built yet in this session; see DESIGN.md section 4 for the planned solver-based harness"
